@@ -16,6 +16,8 @@ CLAIMED = {
              ref='DESIGN.md §4 C10', note='Kernel level; process-level repeatability is only used for replay (48 fresh processes per profile).'),
  'C11': dict(text='Bounded model checking of PoeticNumberLiteral::compute_value / word_len / the suffix-grouping iterator from MIR: for literals of 1..=6 elements with symbolic element kinds and symbolic word lengths z3 shows the returned floating-point term equals the reference sum of (length mod 10) x 10^position; word_len over symbolic characters; the <=4 ulp / integer-exact bound for 1..=3 (thorough 4) symbolic digits by bit-blasted FP queries.',
              ref='DESIGN.md §4 C11', note='Numeric half only (the poetic string half needs string-level parsing).  Well-formedness of the element list (no leading suffix) is assumed here and is the parser\'s obligation.'),
+ 'C01': dict(text='Bounded model checking of the real frontend::parser::parse (Lexer + Parser) and ParseError Display from MIR, in the dev and the release profile: (a) symbolic source text, every character a 32-bit symbolic code point whose class decisions are solver-checked forks; (b) every sequence of <= 3 lexemes over a vocabulary read from the real KEYWORDS table.  Any feasible path reaching a panic edge, an out-of-bounds unchecked slice (release MIR), an unreachable terminator or exceeding the step bound (non-termination) is a counterexample, replayed against the native dev and release builds.',
+             ref='DESIGN.md §4 C01', note='Symbolic texts <= 3 characters (quick: parser on <= 2, lexer on 3; thorough: parser on <= 4); lexeme sequences: 1 over all spellings, 2 over one spelling per token type, 3 over 20 role representatives (thorough: 3 over all types, 4 over the 20).  Deep nesting is outside the property.'),
  'C12': dict(text='Bounded model checking of the real Lexer (Lexer::new, Iterator::next, match_loop, scan_*, make_range, staged suffixes) from MIR over symbolic source text: every character is a 32-bit symbolic code point over ASCII and nine multi-byte representatives, every character-class decision of the lexer is a solver-checked fork; on every feasible path z3 / the path facts decide that the tokens are ordered non-overlapping slices, gaps are ignorable, every line feed outside strings/comments is a Newline token, and start / end positions equal the true line and byte column.',
              ref='DESIGN.md §4 C12', note='Texts of <= 3 (thorough 4) symbolic characters, plus 2 symbolic characters inside fixed multi-line contexts and multi-line string/comment + suffix units.  Counterexamples are replayed through the native lexer in dev and release.'),
  'C16': dict(text='Symbolic execution of the real default traversal (VisitExpr / VisitProgram defaults, ExprVisitorRunner, combine_all) with a VM-only visitor that overrides nothing: for every AST node kind, trees with one free level below it, every callback entry is compared with a reference pre-order, a failure is injected at every callback index, and the folded ListBuilder result is checked.',
